@@ -15,6 +15,10 @@ pub mod c12;
 pub mod c13;
 pub mod c14;
 pub mod c15;
+pub mod c16;
+pub mod c17;
+pub mod c18;
+pub mod c19;
 
 pub fn all() -> Vec<Property> {
     vec![
@@ -33,5 +37,9 @@ pub fn all() -> Vec<Property> {
         c13::property(),
         c14::property(),
         c15::property(),
+        c16::property(),
+        c17::property(),
+        c18::property(),
+        c19::property(),
     ]
 }
